@@ -219,12 +219,14 @@ func (rep *Report) Finish() int {
 			fmt.Printf("%s %s %s [%s] %s\n      %s\n", st, o.Rule, o.Function, o.Construct, o.Pos, strings.ReplaceAll(o.Detail, "\n", "\n      "))
 		}
 	}
+	// a construct that breaks a rule is a violation (exit 1) even when other rules could not decide;
+	// exit 2 is reserved for runs in which the checker could not decide and found nothing to report
 	code := 0
-	if len(viol) > 0 {
-		code = 1
-	}
 	if len(rep.BrokenBy) > 0 {
 		code = 2
+	}
+	if len(viol) > 0 {
+		code = 1
 	}
 	if !mutantMode && !rep.Opts.NoEvidence {
 		rep.writeEvidence(len(viol), len(knownHits), code)
